@@ -49,9 +49,10 @@ func eqRaw(a, b []uint64) bool {
 }
 
 type hist struct {
-	b, n int
-	init []int
-	ops  []string
+	b, n  int
+	init  []int
+	ops   []string
+	dirty []uint64 // bits set in the supplied raw longs outside the n value slots (padding, unused slots)
 }
 
 func (h *hist) wit() any {
@@ -59,7 +60,7 @@ func (h *hist) wit() any {
 	if len(ops) > 60 {
 		ops = append([]string{fmt.Sprintf("...(%d earlier ops)", len(ops)-60)}, ops[len(ops)-60:]...)
 	}
-	return map[string]any{"bits": h.b, "length": h.n, "initial_raw_from_values": len(h.init) > 0, "ops": ops}
+	return map[string]any{"bits": h.b, "length": h.n, "initial_raw_from_values": len(h.init) > 0, "raw_had_bits_outside_the_value_slots": h.dirty != nil, "ops": ops}
 }
 
 // fullCompare checks every index and the raw longs against the model.
@@ -70,11 +71,36 @@ func fullCompare(c *vm.Ctx, s *level.BitStorage, model []int, h *hist, where str
 			return false
 		}
 	}
+	if h.dirty != nil {
+		// the supplied longs had bits outside the value slots: what Raw() shows there is not specified, the slots are
+		want, got := refPack(model, h.b), s.Raw()
+		if len(got) != len(want) {
+			c.Violation("packing/raw-differs/"+where, fmt.Sprintf("bits=%d n=%d: Raw() has %d longs, the packing needs %d (%s)", h.b, h.n, len(got), len(want), where), h.wit())
+			return false
+		}
+		for i := range want {
+			if m := slotMask(h.b, h.n, i); got[i]&m != want[i] {
+				c.Violation("packing/raw-differs/"+where, fmt.Sprintf("bits=%d n=%d: long %d of Raw() does not hold the values in their slots (%s)", h.b, h.n, i, where), h.wit())
+				return false
+			}
+		}
+		return true
+	}
 	if want := refPack(model, h.b); !eqRaw(s.Raw(), want) {
 		c.Violation("packing/raw-differs/"+where, fmt.Sprintf("bits=%d n=%d: Raw() is not the >=1.16 packing of the array (%s)", h.b, h.n, where), h.wit())
 		return false
 	}
 	return true
+}
+
+// slotMask: the bits of long i that belong to value slots of indices < n.
+func slotMask(b, n, i int) uint64 {
+	per := 64 / b
+	used := min(per, n-i*per)
+	if used*b >= 64 {
+		return ^uint64(0)
+	}
+	return 1<<uint(used*b) - 1
 }
 
 func expectPanic(c *vm.Ctx, s *level.BitStorage, h *hist, name string, fn func()) {
@@ -122,6 +148,21 @@ func runHistory(c *vm.Ctx, r *vm.Rand, b, n, steps int, withInit bool) {
 		raw := refPack(model, b)
 		if raw == nil {
 			raw = []uint64{}
+		}
+		if r.Intn(3) == 0 && n > 0 {
+			// longs as a careless peer sends them: bits set above the last slot of a long, and in the slots of the
+			// last long that lie beyond n
+			any := false
+			for i := range raw {
+				if m := slotMask(b, n, i); m != ^uint64(0) {
+					raw[i] |= r.Uint64() &^ m
+					any = true
+				}
+			}
+			if any {
+				h.dirty = append([]uint64{}, raw...)
+				c.Cover("init.raw-with-bits-outside-slots")
+			}
 		}
 		if c.Guard("ctor", h.wit, func() { s = level.NewBitStorage(b, n, raw) }) {
 			return
